@@ -1039,13 +1039,17 @@ impl World {
         self.machinery.push(format!("cannot locate the runtime's random generator in its known sequence (from position {from})"));
     }
 
-    /// Burn values until the next draw of a `select!` (2 branches) will be `queue_first`.
+    /// Burn values until the next draw of the loop's idle `select!` (connection branch first, queue
+    /// branch second, possibly further branches: `SELECT_BRANCHES`, calibrated) starts polling at the
+    /// queue branch (`queue_first`) resp. at the connection branch.
     fn rng_align(&mut self, queue_first: bool) {
         let table = rng_table();
-        // thread_rng_n(u32::MAX) = raw - 1; the next select draw is raw's top bit
-        let top = |v: u32| (v.wrapping_add(1) >> 31) == 1;
+        let n = SELECT_BRANCHES.load(Ordering::Relaxed) as u64;
+        // thread_rng_n(u32::MAX) = raw - 1; a select! with n branches starts at (raw * n) >> 32
+        let start = |v: u32| (v.wrapping_add(1) as u64 * n) >> 32;
+        let wanted = if queue_first { 1 } else { 0 };
         let mut guard = 0;
-        while self.rng_pos < table.len() && top(table[self.rng_pos]) != queue_first {
+        while self.rng_pos < table.len() && start(table[self.rng_pos]) != wanted {
             let _ = tokio::macros::support::thread_rng_n(2);
             self.rng_pos += 1;
             guard += 1;
@@ -1160,7 +1164,9 @@ impl World {
         if self.connected() && !strict && self.long_ticks_used < self.scn.long_tick_budget && self.fault.is_none() {
             // the client is waiting for the reply to something it wrote
             let last = self.last_client_line();
-            if matches!(last.as_deref(), Some(l) if l != b"idle" && l != b"<partial>") {
+            // ... or it idles while (part of) an idle reply is still on its way: a periodic timer in
+            // the idle state (keep-alive, refresh) would fire into exactly that window
+            if matches!(last.as_deref(), Some(l) if l != b"<partial>" && (l != b"idle" || undelivered > 0)) {
                 alts.push(Ev::LongTick);
             }
         }
@@ -1454,6 +1460,12 @@ impl World {
 
 pub const GARBAGE_OPEN: &[u8] = b"\x00\xff";
 
+/// number of branches of the loop's idle `select!` (2 at the pinned commit; calibrated by
+/// `poll_order_mode`, so that a third branch - a timer, a shutdown signal - does not blind the engine)
+pub static SELECT_BRANCHES: std::sync::atomic::AtomicU32 = std::sync::atomic::AtomicU32::new(2);
+/// values drawn and thrown away at the start of an execution (0 outside the calibration)
+static CALIBRATION_BURN: std::sync::atomic::AtomicU32 = std::sync::atomic::AtomicU32::new(0);
+
 pub fn noop_waker() -> Waker {
     struct Noop;
     impl Wake for Noop {
@@ -1511,6 +1523,10 @@ fn run_attempt(scn: &Scenario, chooser: &mut dyn Chooser) -> Result<Trace, Strin
 
 async fn run_async(scn: &Scenario, chooser: &mut dyn Chooser) -> Result<Trace, String> {
     let t0 = tokio::time::Instant::now();
+    // calibration only: start from another position of the generator's sequence
+    for _ in 0..CALIBRATION_BURN.load(Ordering::Relaxed) {
+        let _ = tokio::macros::support::thread_rng_n(2);
+    }
     let mut server = SimServer::new(scn.server.clone());
     let mut s2c = Vec::new();
     s2c.extend_from_slice(&scn.greeting);
@@ -1629,9 +1645,14 @@ async fn run_async(scn: &Scenario, chooser: &mut dyn Chooser) -> Result<Trace, S
         w.log(Obs::Ev { step: w.step, name: ev.name(), strict_tick: strict });
         let log_before = w.sh().log.len();
         // own select!'s branch order for the poll this event triggers
+        let pos_before = w.rng_pos;
         w.rng_sync();
         let queue_first = matches!(ev, Ev::IssueQueueFirst(_) | Ev::Race { recv_first: false, .. });
+        let pos_synced = w.rng_pos;
         w.rng_align(queue_first);
+        if std::env::var_os("VERIF_DEBUG_RNG").is_some() {
+            eprintln!("rng: before event {} position {} -> synced {} -> aligned {} (branches {})", ev.name(), pos_before, pos_synced, w.rng_pos, SELECT_BRANCHES.load(Ordering::Relaxed));
+        }
         w.apply(&ev).await;
         w.settle().await;
         if let Ev::Race { recv_first, .. } = &ev {
@@ -1991,15 +2012,42 @@ pub fn poll_order_mode() -> PollOrder {
                 None => machinery_error("poll-order calibration: the probe race did not reach the idle select"),
             }
         };
-        let (a, b) = (observe("connection-polled-first"), observe("queue-polled-first"));
-        let (a2, b2) = (observe("connection-polled-first"), observe("queue-polled-first"));
-        if (a, b) != (a2, b2) {
-            machinery_error("poll-order calibration is not reproducible");
+        // try 2, 3, 4 branches: the first count under which both requested orders are obeyed from
+        // eight different positions of the generator's sequence (one position could obey by chance)
+        let mut fixed: Option<bool> = None;
+        let mut all_same = true;
+        for n in [2u32, 3, 4] {
+            SELECT_BRANCHES.store(n, Ordering::Relaxed);
+            let mut obeyed = true;
+            for burn in 0..8u32 {
+                CALIBRATION_BURN.store(burn, Ordering::Relaxed);
+                let (a, b) = (observe("connection-polled-first"), observe("queue-polled-first"));
+                let (a2, b2) = (observe("connection-polled-first"), observe("queue-polled-first"));
+                if (a, b) != (a2, b2) {
+                    machinery_error("poll-order calibration is not reproducible");
+                }
+                obeyed &= (a, b) == (true, false);
+                for x in [a, b] {
+                    match fixed {
+                        None if all_same && n == 2 && burn == 0 && x == a => fixed = Some(x),
+                        Some(f) if f != x => all_same = false,
+                        _ => {}
+                    }
+                }
+            }
+            CALIBRATION_BURN.store(0, Ordering::Relaxed);
+            if obeyed {
+                return PollOrder::Seeded;
+            }
         }
-        match (a, b) {
-            (true, false) => PollOrder::Seeded,
-            (x, y) if x == y => PollOrder::Fixed(x),
-            _ => machinery_error("poll-order calibration: the seeded order is inverted (the harness does not own select!'s random draw)"),
+        if !all_same {
+            fixed = None;
+        }
+        SELECT_BRANCHES.store(2, Ordering::Relaxed);
+        match fixed {
+            // the same order whatever was asked for, under every branch count: the code fixes it
+            Some(x) => PollOrder::Fixed(x),
+            None => machinery_error("poll-order calibration: the harness does not own the loop's select! (neither a seeded 2-4-branch select nor a fixed order)"),
         }
     })
 }
@@ -2007,6 +2055,8 @@ pub fn poll_order_mode() -> PollOrder {
 /// Explore all schedules of `scn` with at most `bound` deviations from the default schedule.
 /// Work is distributed over threads by first-level prefix.
 pub fn explore(scn: &Scenario, bound: usize, oracle: &Oracle, budget: &Budget) -> ExploreStats {
+    // calibrate before anything is executed (the branch count steers the alignment of every execution)
+    let _ = poll_order_mode();
     EXEC_COUNTER.store(0, Ordering::Relaxed);
     let mut st = ExploreStats::default();
     // root execution
@@ -2049,6 +2099,10 @@ pub fn explore(scn: &Scenario, bound: usize, oracle: &Oracle, budget: &Budget) -
 
 /// Re-execute one recorded choice list (by event name) and print the trace.
 pub fn replay_names(scn: &Scenario, names: Vec<String>, oracle: &Oracle) -> i32 {
+    let mode = poll_order_mode();
+    if std::env::var_os("VERIF_DEBUG_RNG").is_some() {
+        eprintln!("rng: poll order mode {mode:?}, {} select branches", SELECT_BRANCHES.load(Ordering::Relaxed));
+    }
     let mut chooser = NameChooser { names, cursor: 0, repeats: 0 };
     match run_once(scn, &mut chooser) {
         Err(e) => {
